@@ -72,7 +72,11 @@ def instances(tier):
 def parse_file_instances():
     return [dict(name="parsefile-directory", path="$R", want=-1),
             dict(name="parsefile-missing", path="$R/none.conf", want=-1),
-            dict(name="parsefile-empty-name", path="", want=-1)]
+            dict(name="parsefile-empty-name", path="", want=-1),
+            # a directory reached only after tilde expansion (the home directory of the effective user / of root)
+            dict(name="parsefile-tilde-home", path="~", want=-1),
+            dict(name="parsefile-tilde-home-slash", path="~/", want=-1),
+            dict(name="parsefile-tilde-root", path="~root", want=-1)]
 
 
 def run(verdict, exe, tier, tag="stress", sigprefix="stress", only=None):
